@@ -5,7 +5,7 @@ Every sample is a deterministic function of the (JSON) case, so a replay file on
 import numpy as np
 
 MODEL_NAMES = ["hs_tz_weibull", "hs_tz_expweib", "hs_u_weibull2", "indep_wbl_logn"]
-CLOUD_KINDS = ["ties", "heavy", "pareto", "lattice", "dupes", "mixture", "zeros", "corr_normal"]
+CLOUD_KINDS = ["ties", "heavy", "pareto", "lattice", "dupes", "mixture", "zeros", "corr_normal", "intcounts"]
 
 
 def _power3(a, b, c):
@@ -164,6 +164,10 @@ def cloud(kind, n, sseed, nonneg=False):
         s = r.weibull(1.2, (n, 2)) * [2.0, 5.0]
         s[r.uniform(size=n) < 0.25, 1] = 0.0
         s[r.uniform(size=n) < 0.1, 0] = 0.0
+    elif kind == "intcounts":
+        # whole-number measurements handed over as an integer-dtype array (counts, centimetres, ...)
+        s = np.column_stack([r.poisson(float(r.uniform(5, 400)), n), r.poisson(float(r.uniform(3, 60)), n)]).astype(np.int64)
+        return np.ascontiguousarray(s)
     elif kind == "corr_normal":
         a = r.normal(0, 1, (n, 2))
         rho = float(r.uniform(-0.95, 0.95))
